@@ -385,7 +385,7 @@ func saveAssociations(db *gorm.DB, rel *schema.Relationship, rValues reflect.Val
 		selects, omits []string
 		onConflict     = onConflictOption(db.Statement, rel.FieldSchema, defaultUpdatingColumns)
 		refName        = rel.Name + "."
-		values         = rValues.Interface()
+		values         = distinctPointers(rValues).Interface()
 	)
 
 	for name, ok := range selectColumns {
